@@ -38,7 +38,9 @@ def install(lib):
     # ---- clock (A-CLOCK)
     def localtime(I, a, k, fr, n):
         lib.tick += 1
-        return LibObj("struct_time", tick=I.c.fresh("now", IntS))
+        now = I.c.fresh("now", IntS)
+        I.c.heap.set("ghost.clock_now", now)
+        return LibObj("struct_time", tick=now)
     E["time.localtime"] = localtime
 
     def timegm(I, a, k, fr, n):
@@ -69,3 +71,84 @@ def _range_call(I, k, v):
     if not I.c.branch(ok if not isinstance(ok, bool) else ok, "range-ok"):
         I.raise_("ValidationError")
     return v
+
+
+# ---------------------------------------------------------------------------- AwesomeVersion (A-AV)
+
+def _av_install(lib):
+    import ast as _ast
+    from .interp import is_sym
+
+    def av_new(I, a, k, fr, n):
+        s = a[0]
+        if isinstance(s, LibObj) and s.kind == "awesomeversion":
+            return s
+        if not (isinstance(s, str) or is_sym(s, "str")):
+            raise Unsupported("AwesomeVersion of a non-string")
+        o = LibObj("awesomeversion", s=s)
+
+        def attr(I2, name, fr2, n2, o=o):
+            st = I2.to_term(o.s, TStr)
+            if name == "valid":
+                if isinstance(o.s, str):
+                    from awesomeversion import AwesomeVersion as AV
+                    return AV(o.s).valid
+                return Sym(L.av_valid(st), "bool")
+            if name == "section":
+                def section(I3, a3, k3):
+                    i = a3[0]
+                    if isinstance(o.s, str) and isinstance(i, int):
+                        from awesomeversion import AwesomeVersion as AV
+                        return AV(o.s).section(i)
+                    t = L.av_section(st, I3.to_term(i, TInt))
+                    I3.c.assume(t >= 0)
+                    return Sym(t, "int")
+                return Builtin("AwesomeVersion.section", section)
+            return MISSING
+        o.attr = attr
+        return o
+    lib.ext_calls["awesomeversion.AwesomeVersion"] = av_new
+
+    def av_compare(I, op, a, b):
+        """a >= b etc. as awesomeversion 24.6 defines it (A-AV): string equality, else section-wise comparison
+        with missing sections read as 0; unknown strategies raise AwesomeVersionCompareException."""
+        if not (isinstance(b, LibObj) and b.kind == "awesomeversion"):
+            raise Unsupported("AwesomeVersion compared with a non-version")
+        if isinstance(a.s, str) and isinstance(b.s, str):
+            from awesomeversion import AwesomeVersion as AV
+            import operator
+            f = {_ast.GtE: operator.ge, _ast.Gt: operator.gt, _ast.LtE: operator.le, _ast.Lt: operator.lt}[type(op)]
+            return f(AV(a.s), AV(b.s))
+        if not isinstance(b.s, str):
+            raise Unsupported("AwesomeVersion comparison against a symbolic version")
+        from awesomeversion import AwesomeVersion as AV
+        bv = AV(b.s)
+        st = I.to_term(a.s, TStr)
+        if not I.c.branch(L.av_valid(st), "av-valid"):
+            I.raise_("AwesomeVersionCompareException")
+        nb = bv.sections
+        k = I.c.choose([L.av_nsec(st) == j for j in (1, 2, 3, 4)], "av-sections")
+        if k == 4:
+            return Sym(I.c.fresh("av_cmp", BoolS), "bool")
+        na = k + 1
+        K = max(na, nb)
+        sa = [L.av_section(st, z3.IntVal(i)) if i < na else z3.IntVal(0) for i in range(K)]
+        sb = [z3.IntVal(bv.section(i)) for i in range(K)]
+        gt = z3.BoolVal(False)
+        for i in reversed(range(K)):
+            gt = z3.Or(sa[i] > sb[i], z3.And(sa[i] == sb[i], gt))
+        lt = z3.BoolVal(False)
+        for i in reversed(range(K)):
+            lt = z3.Or(sa[i] < sb[i], z3.And(sa[i] == sb[i], lt))
+        eq = st == z3.StringVal(b.s)
+        r = {_ast.GtE: z3.Or(eq, gt), _ast.Gt: z3.And(z3.Not(eq), gt), _ast.LtE: z3.Or(eq, lt), _ast.Lt: z3.And(z3.Not(eq), lt)}[type(op)]
+        return I.mk(r, "bool")
+    lib.av_compare = av_compare
+
+
+_install0 = install
+
+
+def install(lib):  # noqa: F811
+    _install0(lib)
+    _av_install(lib)
